@@ -129,9 +129,16 @@ def edit_listing(rng, text: str):
     if rng.random() < 0.3:
         out = ["", "x.o:     file format elf64-x86-64", ""] + out
         edits.append("file-header-added")
-    if rng.random() < 0.12:
+    r9 = rng.random()
+    if r9 < 0.12:
         edits.append("crlf-line-endings")        # the same listing saved with Windows line endings
         return "\r\n".join(out), edits
+    if r9 < 0.16:
+        edits.append("cr-line-endings")          # ... or with bare carriage returns (every universal-newline reader splits them)
+        return "\r".join(out), edits
+    if r9 < 0.19:
+        edits.append("mixed-line-endings")
+        return "".join(x + rng.choice(["\n", "\r\n", "\r"]) for x in out), edits
     return "\n".join(out), edits
 
 
